@@ -392,7 +392,7 @@ Qed.
 Lemma inv_src_step mx hist st ev :
   inv_src mx hist st -> inv_src mx (hist ++ [ev]) (fst (step mx st ev)).
 Proof.
-  intros Hinv k e. destruct ev as [c|t eps k0 resp pk|t k0|k0]; cbn [step fst].
+  intros Hinv k e. destruct ev as [c|t eps k0 resp pk|t k0|k0|k0]; cbn [step fst].
   - cbn. intros H. apply entry_src_mono, Hinv, H.
   - destruct (cachectl_store mx st t eps k0 resp pk) as [st' o] eqn:Es. cbn [fst].
     assert (Hcases : st' = st \/ exists L, o = OStored L).
@@ -409,10 +409,11 @@ Proof.
       exists eps, m. cbn. split; [apply in_or_app; right; now left|auto].
     + intros H. apply entry_src_mono, Hinv, H.
   - unfold cachectl_get. destruct (find k0 (st_map st)) as [e0|] eqn:Ef; cbn [fst].
-    + destruct (has_expired (st_clk st) e0); cbn [fst st_map].
-      * rewrite find_remove. destruct (k0 =? k)%N; [discriminate|]. intros H. apply entry_src_mono, Hinv, H.
-      * intros H. apply entry_src_mono, Hinv, H.
+    + destruct (has_expired (st_clk st) e0); cbn [fst st_map]; intros H; apply entry_src_mono, Hinv, H.
     + intros H. apply entry_src_mono, Hinv, H.
+  - destruct (find k0 (st_map st)) as [e0|] eqn:Ef; cbn [fst]; [|intros H; apply entry_src_mono, Hinv, H].
+    destruct (has_expired (st_clk st) e0); cbn [fst st_map]; [|intros H; apply entry_src_mono, Hinv, H].
+    rewrite find_remove. destruct (k0 =? k)%N; [discriminate|]. intros H. apply entry_src_mono, Hinv, H.
   - cbn [st_map]. rewrite find_remove. destruct (k0 =? k)%N; [discriminate|]. intros H. apply entry_src_mono, Hinv, H.
 Qed.
 
@@ -434,7 +435,7 @@ Proof. apply (inv_src_run mx evs [] (init_state clk)), inv_src_init. Qed.
 
 Lemma ev_okb_sound lag mx clk ev : ev_okb lag mx clk ev = true -> ev_ok lag mx clk ev.
 Proof.
-  destruct ev as [c|t eps k resp pk|t k|k]; cbn [ev_okb ev_ok]; auto.
+  destruct ev as [c|t eps k resp pk|t k|k|k]; cbn [ev_okb ev_ok]; auto.
   - rewrite !andb_true_iff. intros [[[H1 H2] H3] H4].
     apply Z.leb_le in H1, H3. apply Z.ltb_lt in H2, H4. auto.
   - apply Z.ltb_lt.
@@ -479,7 +480,7 @@ Qed.
 Lemma inv_clk_step lag mx st ev :
   SECOND <= mx -> inv_clk st -> ev_ok lag mx (st_clk st) ev -> inv_clk (fst (step mx st ev)).
 Proof.
-  intros Hmx Hinv Hok k e. destruct ev as [c|t eps k0 resp pk|t k0|k0]; cbn [step fst].
+  intros Hmx Hinv Hok k e. destruct ev as [c|t eps k0 resp pk|t k0|k0|k0]; cbn [step fst].
   - cbn. apply Hinv.
   - destruct (cachectl_store mx st t eps k0 resp pk) as [st' o] eqn:Es. cbn [fst].
     assert (Hcases : st' = st \/ exists L, o = OStored L).
@@ -497,6 +498,8 @@ Proof.
     pose proof (msg_lifetime_ge_1s mx m Hmx) as HL1. pose proof (msg_lifetime_le_max mx m) as HL2.
     split; [lia|]. apply (otter_expiration_bound (st_clk st) (msg_lifetime mx m) eps t mx); auto.
   - unfold cachectl_get. destruct (find k0 (st_map st)) as [e0|] eqn:Ef; cbn [fst]; [|apply Hinv].
+    destruct (has_expired (st_clk st) e0); cbn [fst st_map]; apply Hinv.
+  - destruct (find k0 (st_map st)) as [e0|] eqn:Ef; cbn [fst]; [|apply Hinv].
     destruct (has_expired (st_clk st) e0); cbn [fst st_map]; [|apply Hinv].
     rewrite find_remove. destruct (k0 =? k)%N; [discriminate|apply Hinv].
   - cbn [st_map]. rewrite find_remove. destruct (k0 =? k)%N; [discriminate|apply Hinv].
@@ -565,7 +568,7 @@ Proof. intros HP. induction evs as [|ev evs IH]; intros st; cbn; auto. Qed.
 
 Lemma negative_nx_history mx evs st : steps_sat neg_keeps mx st evs.
 Proof.
-  apply steps_sat_all. intros st0 ev. destruct ev as [c|t eps k resp pk|t k|k]; cbn; auto.
+  apply steps_sat_all. intros st0 ev. destruct ev as [c|t eps k resp pk|t k|k|k]; cbn; auto.
   destruct resp as [m|]; auto. intros Hn e Hf.
   destruct (store_negative_keeps mx st0 t eps k m pk e Hn Hf) as (o & -> & Ho). cbn [fst snd].
   split; [reflexivity|]. destruct Ho as [->| ->]; eauto.
